@@ -1,3 +1,297 @@
 import XvcIgnore.GitLemmas
+/-!
+  # C16 — Tracked data files never enter Git
+
+  Property theorems about the model of xvc's `.gitignore` maintenance and of git's reading of the
+  files (GitIgnore.lean).  The model mirrors the code WITH patches/C09-F8.patch,
+  patches/C16-newline.patch and patches/C16-move.patch.  All theorems are for every workspace tree, every
+  pre-existing `.gitignore` content, every rule list and every batch of targets.
+-/
 namespace Ign.Git
+open Ign
+
+/-! ## xvc edits `.gitignore` files only by appending -/
+
+/-- Reading of `Ext t t'`: every directory that has content `old` in `t` has content `old ++ suffix` in
+    `t'`; nothing is deleted, nothing is rewritten, no directory appears. -/
+theorem C16_ext_spelled (t t' : Tree) (h : Ext t t') (d : List Str) (old : Str) (hc : contentAt d t = some old) :
+    ∃ suf, contentAt d t' = some (old ++ suf) := by
+  have := h d; rw [hc] at this; exact this
+
+/-- `update_file_gitignores`, for every rule list, date, batch of files and workspace -/
+theorem C16_append_only_files (rules : List Pattern) (date : Str) (files : List Target) (t : Tree) :
+    Ext t (updateFileGitignores rules date files t) := ext_writeGroups date _ _ t
+
+/-- `update_dir_gitignores` -/
+theorem C16_append_only_dirs (rules : List Pattern) (date : Str) (dirs : List Target) (t : Tree) :
+    Ext t (updateDirGitignores rules date dirs t) := ext_writeGroups date _ _ t
+
+/-- `xvc file track` -/
+theorem C16_append_only_track (date : Str) (dirs files : List Target) (t : Tree) :
+    Ext t (trackUpdate date dirs files t) :=
+  Ext.trans (C16_append_only_dirs _ date dirs t) (C16_append_only_files _ date files _)
+
+/-- the ignore handler of recheck / copy / move / carry-in / bring -/
+theorem C16_append_only_handler (date : Str) (dirOps fileOps : List Target) (t : Tree) :
+    Ext t (handlerUpdate date dirOps fileOps t) :=
+  Ext.trans (C16_append_only_dirs _ date _ t) (C16_append_only_files _ date _ _)
+
+/-- `xvc file move` of a renamed file -/
+theorem C16_append_only_move (date : Str) (files : List Target) (t : Tree) :
+    Ext t (moveUpdate date files t) := C16_append_only_files _ date files t
+
+/-- any history of commands -/
+inductive Cmd where
+  | track (date : Str) (dirs files : List Target)
+  | handler (date : Str) (dirOps fileOps : List Target)
+  | move (date : Str) (files : List Target)
+
+def Cmd.run : Cmd → Tree → Tree
+  | .track date dirs files, t => trackUpdate date dirs files t
+  | .handler date d f, t => handlerUpdate date d f t
+  | .move date f, t => moveUpdate date f t
+
+theorem C16_append_only : ∀ (cmds : List Cmd) (t : Tree), Ext t (cmds.foldl (fun t c => c.run t) t)
+  | [], t => Ext.refl t
+  | c :: cs, t => by
+    simp only [List.foldl_cons]
+    refine Ext.trans ?_ (C16_append_only cs _)
+    cases c with
+    | track date dirs files => exact C16_append_only_track date dirs files t
+    | handler date d f => exact C16_append_only_handler date d f t
+    | move date f => exact C16_append_only_move date f t
+
+/-- lines: with the newline repair (patches/C16-newline.patch) the text xvc appends to a file that
+    lacks a final newline starts with one, so the banner is never glued to the user's last pattern -/
+theorem C16_appended_text_starts_fresh_line (old : Str) (lines : List Str) (date : Str)
+    (h1 : old ≠ []) (h2 : old.getLast? ≠ some '\n') : ∃ r, appendText old lines date = '\n' :: r := by
+  simp only [appendText, h1, h2, ne_eq, not_false_eq_true, and_self, if_true, List.append_assoc, List.cons_append,
+    List.nil_append]
+  exact ⟨_, rfl⟩
+
+/-- line level: every `.gitignore` (whose last byte is not a lone carriage return) keeps its lines as
+    its first lines — no line written by the user or by an earlier command is removed or altered -/
+def LinesKept (t t' : Tree) : Prop :=
+  ∀ d old, contentAt d t = some old → old.getLast? ≠ some '\r' →
+    ∃ new, contentAt d t' = some new ∧ rustLines old <+: rustLines new ∧ new.getLast? ≠ some '\r'
+
+theorem LinesKept.refl (t : Tree) : LinesKept t t := fun _ old hc hr => ⟨old, hc, List.prefix_refl _, hr⟩
+
+theorem LinesKept.trans {a b c : Tree} (h1 : LinesKept a b) (h2 : LinesKept b c) : LinesKept a c := by
+  intro d old hc hr
+  obtain ⟨m, hm, hp, hr'⟩ := h1 d old hc hr
+  obtain ⟨n, hn, hp', hr''⟩ := h2 d m hm hr'
+  exact ⟨n, hn, List.IsPrefix.trans hp hp', hr''⟩
+
+theorem C16_lines_kept_files (rules : List Pattern) (date : Str) (files : List Target) (t : Tree) :
+    LinesKept t (updateFileGitignores rules date files t) :=
+  fun d old hc hr => lines_prefix_writeGroups date _ _ t d old hc hr
+
+theorem C16_lines_kept_dirs (rules : List Pattern) (date : Str) (dirs : List Target) (t : Tree) :
+    LinesKept t (updateDirGitignores rules date dirs t) :=
+  fun d old hc hr => lines_prefix_writeGroups date _ _ t d old hc hr
+
+/-- for every history of track / recheck-copy-move-bring handler / move updates -/
+theorem C16_lines_kept : ∀ (cmds : List Cmd) (t : Tree), LinesKept t (cmds.foldl (fun t c => c.run t) t)
+  | [], t => LinesKept.refl t
+  | c :: cs, t => by
+    simp only [List.foldl_cons]
+    refine LinesKept.trans ?_ (C16_lines_kept cs _)
+    cases c with
+    | track date dirs files =>
+      exact LinesKept.trans (C16_lines_kept_dirs _ date dirs t) (C16_lines_kept_files _ date files _)
+    | handler date d f =>
+      exact LinesKept.trans (C16_lines_kept_dirs _ date _ t) (C16_lines_kept_files _ date _ _)
+    | move date f => exact C16_lines_kept_files _ date f t
+
+example :
+    let t : Tree := .node "*.log".toList [] []
+    contentAt [] (trackUpdate "D".toList [] [⟨[], "x.bin".toList⟩] t) =
+      some "*.log\n### Following 1 lines are added by xvc on D\n/x.bin\n".toList := by decide
+
+/-! ## after a command the written targets are ignored by git -/
+
+/-- **Partial** (see the three counterexamples below).  `update_file_gitignores`: a target that xvc's
+    matcher does not consider ignored or whitelisted (`check = NoMatch`), whose name is a literal
+    pattern, is ignored by git afterwards — whatever the user's `.gitignore` files contain (including
+    negations: the appended line is the last matching line of the deepest file), whatever else is in
+    the batch. -/
+theorem C16_ignored_after_update_partial (rules : List Pattern) (date : Str) (files : List Target) (t : Tree) (x : Target)
+    (hx : x ∈ files) (hcheck : check rules x.pathStr = .noMatch) (hname : PlainName x.name)
+    (hsane : ∀ y ∈ files, '\n' ∉ y.name) (hdir : (contentAt x.dir t).isSome = true) :
+    gitIgnored (updateFileGitignores rules date files t) (x.dir ++ [x.name]) false = true := by
+  unfold updateFileGitignores
+  apply ignored_after_writeGroups date _ t x ?_ hname ?_ hdir
+  · exact List.mem_filter.2 ⟨hx, by simp [hcheck]⟩
+  · intro y hy; exact hsane y (List.mem_filter.1 hy).1
+
+/-- the same for the whole tail of `xvc file track` (directory targets are written first, the rules
+    are reloaded, then the files) and of `xvc file move` -/
+theorem C16_ignored_after_track_partial (date : Str) (dirs files : List Target) (t : Tree) (x : Target)
+    (hx : x ∈ files) (hname : PlainName x.name) (hsane : ∀ y ∈ files, '\n' ∉ y.name)
+    (hdir : (contentAt x.dir t).isSome = true)
+    (hcheck : check (gitRules (updateDirGitignores (gitRules t) date dirs t)) x.pathStr = .noMatch) :
+    gitIgnored (trackUpdate date dirs files t) (x.dir ++ [x.name]) false = true := by
+  unfold trackUpdate
+  apply C16_ignored_after_update_partial _ date files _ x hx hcheck hname hsane
+  have := C16_append_only_dirs (gitRules t) date dirs t x.dir
+  obtain ⟨old, hold⟩ := Option.isSome_iff_exists.1 hdir
+  rw [hold] at this
+  obtain ⟨suf, hs⟩ := this
+  rw [hs]; rfl
+
+theorem C16_ignored_after_move_partial (date : Str) (files : List Target) (t : Tree) (x : Target)
+    (hx : x ∈ files) (hname : PlainName x.name) (hsane : ∀ y ∈ files, '\n' ∉ y.name)
+    (hdir : (contentAt x.dir t).isSome = true) (hcheck : check (gitRules t) x.pathStr = .noMatch) :
+    gitIgnored (moveUpdate date files t) (x.dir ++ [x.name]) false = true :=
+  C16_ignored_after_update_partial _ date files t x hx hcheck hname hsane hdir
+
+/-- non-vacuity: a user file that whitelists by extension, no final newline; the target is not covered by xvc's reading -/
+example :
+    let t : Tree := .node "*.tmp\n!*.dat".toList [] [("a".toList, .node "!x.bin\n".toList [] [])]
+    let x : Target := ⟨["a".toList], "y.bin".toList⟩
+    check (gitRules t) x.pathStr = .noMatch ∧ PlainName x.name ∧ (contentAt x.dir t).isSome = true ∧
+    gitIgnored t ["a".toList, "y.bin".toList] false = false ∧
+    gitIgnored (trackUpdate "D".toList [] [x] t) ["a".toList, "y.bin".toList] false = true := by decide
+
+/-- excluded region 1 (K6a): a user line whitelists the target — xvc prints an error and writes
+    nothing; git does not ignore the tracked file -/
+theorem C16_whitelisted_counterexample :
+    let t : Tree := .node "*.bin\n!keep.bin\n".toList [] []
+    let x : Target := ⟨[], "keep.bin".toList⟩
+    check (gitRules t) x.pathStr = .whitelist ∧ allContents [] (trackUpdate "D".toList [] [x] t) = allContents [] t ∧
+    gitIgnored (trackUpdate "D".toList [] [x] t) ["keep.bin".toList] false = false := by decide
+
+/-- excluded region 2 (K6b): the name is not a literal pattern — `/a[1].bin` is a character class for
+    git, `/sp .bin ` loses its trailing blank -/
+theorem C16_special_name_counterexample :
+    let t : Tree := .node [] [] []
+    (¬ PlainName "a[1].bin".toList) ∧ (¬ PlainName "sp ".toList) ∧
+    gitIgnored (trackUpdate "D".toList [] [⟨[], "a[1].bin".toList⟩] t) ["a[1].bin".toList] false = false ∧
+    gitIgnored (trackUpdate "D".toList [] [⟨[], "sp ".toList⟩] t) ["sp ".toList] false = false := by decide
+
+/-- excluded region 3 (K12): xvc believes the path is already ignored, git does not.  xvc's matcher
+    reads the anchored line `/data.bin` (which xvc wrote itself when `data.bin` was tracked) as
+    `/**/data.bin`; for git it is anchored at the root.  `sub/data.bin` is tracked and not ignored. -/
+theorem C16_anchored_line_counterexample :
+    let t0 : Tree := .node [] [] [("sub".toList, .node [] [] [])]
+    let t1 := trackUpdate "D".toList [] [⟨[], "data.bin".toList⟩] t0
+    let x : Target := ⟨["sub".toList], "data.bin".toList⟩
+    gitIgnored t1 ["data.bin".toList] false = true ∧
+    check (gitRules t1) x.pathStr = .ignore ∧ allContents [] (trackUpdate "E".toList [] [x] t1) = allContents [] t1 ∧
+    gitIgnored (trackUpdate "E".toList [] [x] t1) ["sub".toList, "data.bin".toList] false = false := by decide
+
+/-! ## the cache is never staged -/
+
+/-- the patterns `xvc init` writes, as git parses them — computed from the generated `GITIGNORE_INITIAL_CONTENT` -/
+theorem initial_patterns :
+    parseContent Gen.GITIGNORE_INITIAL_CONTENT.toList =
+      [⟨false, false, true, ".xvc/*".toList⟩, ⟨true, true, true, ".xvc/store".toList⟩,
+       ⟨true, true, true, ".xvc/ec".toList⟩, ⟨true, false, true, ".xvc/config.toml".toList⟩] := by decide
+
+/-- Every entry `.xvc/c/…` with `c` other than `store`, `ec`, `config.toml` — in particular the cache
+    directories `b3`, `b2`, `s2`, `s3` and everything below them — is ignored by git, as long as the
+    root `.gitignore` starts with the text `xvc init` wrote, what follows contains no negation (xvc
+    itself appends only `/name` lines, see `parseLine_slash_nonneg`) and `.xvc` has no `.gitignore`
+    of its own. -/
+theorem C16_cache_never_staged (rest : Str) (c : Str) (more : List Str) (isDir : Bool) (deeper : List Str)
+    (hc : '/' ∉ c) (hc1 : c ≠ "store".toList) (hc2 : c ≠ "ec".toList) (hc3 : c ≠ "config.toml".toList)
+    (hrest : ∀ g ∈ parseContent rest, g.neg = false) :
+    ignoredBy ((Gen.GITIGNORE_INITIAL_CONTENT.toList ++ rest) :: [] :: deeper) (".xvc".toList :: c :: more) isDir = true := by
+  unfold ignoredBy
+  rw [List.any_eq_true]
+  refine ⟨1, by simp, ?_⟩
+  simp only [List.take_succ_cons, List.take_zero, verdict, List.drop_succ_cons, List.drop_zero]
+  have hnil : lastMatch (parseContent []) [c] (isDir || decide (1 + 1 < (".xvc".toList :: c :: more).length)) = none := by
+    simp [parseContent, rustLines, rustLinesAux, lastMatch]
+  rw [hnil]
+  simp only []
+  -- the root file: initial lines, then `rest`
+  have hsplit : Gen.GITIGNORE_INITIAL_CONTENT.toList ++ rest =
+      Gen.GITIGNORE_INITIAL_CONTENT.toList.dropLast ++ '\n' :: rest := by
+    have : Gen.GITIGNORE_INITIAL_CONTENT.toList = Gen.GITIGNORE_INITIAL_CONTENT.toList.dropLast ++ ['\n'] := by decide
+    conv => lhs; rw [this]
+    simp
+  have hinit : parseContent (Gen.GITIGNORE_INITIAL_CONTENT.toList.dropLast ++ ['\n']) =
+      parseContent Gen.GITIGNORE_INITIAL_CONTENT.toList := by
+    have : Gen.GITIGNORE_INITIAL_CONTENT.toList.dropLast ++ ['\n'] = Gen.GITIGNORE_INITIAL_CONTENT.toList := by decide
+    rw [this]
+  rw [hsplit, parseContent_append_nl, hinit, lastMatch_append]
+  generalize hd : (isDir || decide (1 + 1 < (".xvc".toList :: c :: more).length)) = d
+  have hrel : joinSlash [".xvc".toList, c] = ".xvc/".toList ++ c := by
+    have e : ".xvc/".toList = ".xvc".toList ++ ['/'] := by decide
+    rw [e]
+    cases c <;> simp only [joinSlash, List.append_assoc, List.cons_append, List.nil_append]
+  have hA : lastMatch (parseContent Gen.GITIGNORE_INITIAL_CONTENT.toList) [".xvc".toList, c] d = some false := by
+    rw [initial_patterns]
+    have m1 : GPat.matches ⟨false, false, true, ".xvc/*".toList⟩ [".xvc".toList, c] d = true := by
+      simp only [GPat.matches, Bool.not_false, Bool.true_or, Bool.true_and, if_true, hrel]
+      exact xvcStar_matches c hc
+    have nm : ∀ (dn : Bool) (lit : Str), (∀ ch ∈ lit, plainChar ch = true) → ".xvc/".toList ++ c ≠ lit →
+        GPat.matches ⟨true, dn, true, lit⟩ [".xvc".toList, c] d = false := by
+      intro dn lit hp hne
+      simp only [GPat.matches, if_true, hrel]
+      cases hg : globMatch lit (".xvc/".toList ++ c) with
+      | false => simp
+      | true => exact absurd (globMatch_plain_eq lit _ hp hg) hne
+    have n1 := nm true ".xvc/store".toList (by decide) (by
+      intro h; apply hc1; have := List.append_cancel_left (as := ".xvc/".toList) (bs := c) (cs := "store".toList) (by rw [h]; decide); exact this)
+    have n2 := nm true ".xvc/ec".toList (by decide) (by
+      intro h; apply hc2; exact List.append_cancel_left (as := ".xvc/".toList) (by rw [h]; decide))
+    have n3 := nm false ".xvc/config.toml".toList (by decide) (by
+      intro h; apply hc3; exact List.append_cancel_left (as := ".xvc/".toList) (by rw [h]; decide))
+    simp only [lastMatch, m1, n1, n2, n3, if_true, Bool.false_eq_true, if_false]
+  rw [hA]
+  -- whatever `rest` says, it cannot re-include
+  cases hB : lastMatch (parseContent rest) [".xvc".toList, c] d with
+  | none => simp
+  | some v =>
+    have : v = false := lastMatch_val_of_nonneg _ d _ hrest v hB
+    simp [this]
+
+/-- non-vacuity: a real cache path below the text written by `xvc init` and two lines added by `xvc file track` -/
+example :
+    let root := Gen.GITIGNORE_INITIAL_CONTENT.toList ++ "\n### Following 2 lines are added by xvc on D\n/data.bin\n/a/\n".toList
+    let t : Tree := .node root [] [(".xvc".toList, .node [] [] [("b3".toList, .node [] [] [])])]
+    gitIgnored t [".xvc".toList, "b3".toList, "abc".toList, "def".toList, "0.bin".toList] false = true ∧
+    gitIgnored t [".xvc".toList, "store".toList, "xvc-path-store".toList, "1.json".toList] false = false ∧
+    gitIgnored t [".xvc".toList, "config.toml".toList] false = false := by decide
+
 end Ign.Git
+
+open Ign.Git in
+#print axioms C16_append_only
+open Ign.Git in
+#print axioms C16_append_only_files
+open Ign.Git in
+#print axioms C16_append_only_dirs
+open Ign.Git in
+#print axioms C16_append_only_track
+open Ign.Git in
+#print axioms C16_append_only_handler
+open Ign.Git in
+#print axioms C16_append_only_move
+open Ign.Git in
+#print axioms C16_ext_spelled
+open Ign.Git in
+#print axioms C16_appended_text_starts_fresh_line
+open Ign.Git in
+#print axioms C16_lines_kept_files
+open Ign.Git in
+#print axioms C16_lines_kept_dirs
+open Ign.Git in
+#print axioms C16_lines_kept
+open Ign.Git in
+#print axioms C16_ignored_after_update_partial
+open Ign.Git in
+#print axioms C16_ignored_after_track_partial
+open Ign.Git in
+#print axioms C16_ignored_after_move_partial
+open Ign.Git in
+#print axioms C16_whitelisted_counterexample
+open Ign.Git in
+#print axioms C16_special_name_counterexample
+open Ign.Git in
+#print axioms C16_anchored_line_counterexample
+open Ign.Git in
+#print axioms C16_cache_never_staged
